@@ -93,6 +93,7 @@ class NDArr(object):
         self.from_base = None
         self.prov = None
         self.writeable = True
+        self.nanfn = None           # for float arrays that may hold NaN: nanfn(*idx) -> z3 Bool (None: no NaN anywhere)
 
     @property
     def fn(self):
